@@ -270,7 +270,12 @@ def run(ctx):
                        "derived ordering `DbValue::%s` (orders by variant first) is reachable without a same-variant "
                        "test: values of different types compare as ordered" % last(d), b.loc(i),
                        key="%s|R15d|Comparison::compare|%s" % (ctx.pid, last(d)))
-        ctx.floor("R15d", "DbValue ordering calls in Comparison::compare", n, 4)
+        ctx.ob("R15d", "compare:ordering-idiom", n >= 4,
+               "the four ordering comparisons call DbValue's PartialOrd directly (guarded, see above)" if n >= 4 else
+               "the ordering comparisons of Comparison::compare are implemented through an idiom this rule does not "
+               "recognise (%d direct `DbValue: PartialOrd` calls found, 4 expected): type strictness of <, <=, >, >= cannot "
+               "be established (accepted idioms: same-variant test && derived ordering; ordering of payloads inside a "
+               "same-variant match)" % n, b.where)
 
         # ---------------- R15e
         ms = fa.matches(b.path)
@@ -303,4 +308,8 @@ def run(ctx):
                "DbValue as std::cmp::PartialEq" in (cfg.callee_full(t) or "")]
         ctx.ob("R15d", "compare:equality-derived", len(eqs) >= 2, "Equal/NotEqual use derived PartialEq (variant + payload)"
                if len(eqs) >= 2 else "Equal/NotEqual no longer use DbValue's derived equality", b.where)
+    # the extent of a traversal under Stop / Continue is decided by the expand siblings and SearchImpl's dispatch
+    # (a Stop at an edge must prune only what lies beyond that edge): re-evaluate C14's rules under this property
+    from rules import C14
+    C14.run(ctx)
     return 0
